@@ -388,6 +388,11 @@ FIXED += [
         _c("Prog", "", [("a", ("sym", "Stmt")), ("b", ("sym", "Stmt"))]),
         _c("Skip", "Stmt", [("v", I01)]), _c("Not", "Stmt", [("s", ("sym", "Stmt"))]),
         _c("Blk", "Stmt", [("p", ("sym", "Prog"))])]},
+    # the only recursive route goes through the SECOND member of a union of a plain record and the abstract type
+    {"id": "unionrec", "start": "Root", "classes": [
+        _c("Root", "", abstract=True), _c("Atom", "", [("n", ("ann", ("base", "str"), ("VarRange", ["x", "y"])))]),
+        _c("Leaf", "Root", [("v", I01)]),
+        _c("Wrap", "Root", [("inner", ("union", [("sym", "Atom"), ("sym", "Root")]))])]},
     # weighted productions whose weights do not add up to a power of two
     {"id": "weighted", "start": "Expr", "classes": [
         _c("Expr", "", abstract=True), _c("Lit", "Expr", [("v", I01)], weight=3),
